@@ -185,3 +185,99 @@ func evalGlobalRef(h *History) {
 		}
 	}
 }
+
+// hostRef (same stage, second kind of history: ops after the leading "hostref"): a guest's funcref to an IMPORTED HOST
+// function - placed in its own table by an element segment, by ref.func + table.set, and held in a global - is a
+// reference like any other: the record behind it lives as long as the guest does.  The host module's instance and
+// compiled module are closed and dropped, collections and heap churn follow, the guest keeps calling through all three.
+func hostRef(h *History, emit func(string, ...any)) {
+	s := newSide("R", h)
+	hcm, err := s.rt.NewHostModuleBuilder("a").NewFunctionBuilder().WithFunc(func(x uint32) uint32 { return x + 4200 }).Export("f").Compile(ctx)
+	if err != nil {
+		emit("R 0 hosterr:%v", err)
+		return
+	}
+	hinst, err := s.rt.InstantiateModule(ctx, hcm, wazero.NewModuleConfig().WithName("a"))
+	if err != nil {
+		emit("R 0 hosterr:%v", err)
+		return
+	}
+	m := wb.New()
+	f := m.ImportFunc("a", "f", []byte{wb.I32}, []byte{wb.I32})
+	m.Table(4, nil)
+	t0 := m.TypeIdx([]byte{wb.I32}, []byte{wb.I32})
+	m.M.GlobalSection = append(m.M.GlobalSection, wasm.Global{Type: wasm.GlobalType{ValType: wasm.ValueTypeFuncref}, Init: wasm.ConstantExpression{Opcode: wasm.OpcodeRefFunc, Data: leb128.EncodeUint32(f)}})
+	ci := func(slot int32) []byte {
+		return wb.Cat(wb.LocalGet(0), wb.I32Const(slot), wb.Op(wasm.OpcodeCallIndirect), wb.U32(t0), wb.U32(0))
+	}
+	m.AddFunc(wb.Func{Params: []byte{wb.I32}, Results: []byte{wb.I32}, Export: "via_elem", Body: ci(0)})
+	m.AddFunc(wb.Func{Params: []byte{wb.I32}, Results: []byte{wb.I32}, Export: "via_reffunc", Body: wb.Cat(wb.I32Const(1), wb.Op(wasm.OpcodeRefFunc), wb.U32(f), wb.Op(wasm.OpcodeTableSet, 0), ci(1))})
+	m.AddFunc(wb.Func{Params: []byte{wb.I32}, Results: []byte{wb.I32}, Export: "via_global", Body: wb.Cat(wb.I32Const(2), wb.GlobalGet(0), wb.Op(wasm.OpcodeTableSet, 0), ci(2))})
+	bm, err := s.rt.InstantiateWithConfig(ctx, m.BytesWithSegments([]wb.Elem{{Offset: 0, Init: []int64{int64(f)}}}), wazero.NewModuleConfig().WithName("B"))
+	if err != nil {
+		emit("R 0 guesterr:%v", strings.ReplaceAll(err.Error(), " ", "_"))
+		return
+	}
+	emit("R 0 ok")
+	for k := 1; k < len(h.Ops); k++ {
+		emit("B %d", k)
+		out := "ok"
+		func() {
+			defer func() {
+				if r := recover(); r != nil {
+					out = "PANIC:" + strings.ReplaceAll(fmt.Sprint(r), " ", "_")
+				}
+			}()
+			switch h.Ops[k] {
+			case "closeA":
+				hinst.Close(ctx)
+				hcm.Close(ctx)
+				hinst, hcm = nil, nil
+			case "gc":
+				collect()
+				spray()
+			case "use":
+				var parts []string
+				for _, fn := range []string{"via_elem", "via_reffunc", "via_global"} {
+					res, err := bm.ExportedFunction(fn).Call(ctx, 5)
+					if err != nil {
+						parts = append(parts, classify(err))
+					} else {
+						parts = append(parts, fmt.Sprintf("v=%d", int32(res[0])))
+					}
+				}
+				out = strings.Join(parts, ",")
+			}
+		}()
+		emit("R %d %s", k, out)
+	}
+}
+
+func hostRefHistories() []*History {
+	var hs []*History
+	for _, e := range []string{"compiler", "interpreter"} {
+		hs = append(hs, &History{Engine: e, Spray: true, Ops: []string{"hostref", "use", "gc", "use", "closeA", "gc", "use", "gc", "gc", "use"}})
+	}
+	return hs
+}
+
+func evalHostRef(h *History) {
+	res := runChild(h)
+	rep.Case(fmt.Sprintf("hostref/%s", h.Engine))
+	rep.Count("label:hostref")
+	fail := func(sig, what string, k int) {
+		rep.Violate(hx.Violation{Kind: "impl-violation", Signature: "C09:" + h.Engine + ":host-function-reference:" + sig, What: what, Input: h,
+			Actual: fmt.Sprintf("op %d %q -> %q", k, h.Ops[max(k, 0)], res.R[k])})
+	}
+	if !res.Done || res.Crash != "" {
+		k := max(res.Begun, 0)
+		fail("child-crashed", fmt.Sprintf("a live guest called through its references to an imported host function (element segment, ref.func, global) after collections: the process died during op %d %q: %s %s", k, h.Ops[k], res.Crash, res.Stderr), k)
+		return
+	}
+	for k := 1; k < len(h.Ops); k++ {
+		if h.Ops[k] == "use" && res.R[k] != "v=4205,v=4205,v=4205" && res.R[k] != "closed,closed,closed" {
+			fail("reference-changed", fmt.Sprintf("the guest's references to the imported host function answer %s (want v=4205 three times, or the ordinary closed error)", res.R[k]), k)
+			return
+		}
+	}
+}
